@@ -10,7 +10,7 @@ bit-exact.
 
 request
 ```
-{"op":"search","spec":false,"legacy":false,"legacy_scores":false,
+{"op":"search","spec":false,"legacy":false,"legacy_scores":false,"legacy_aggs":false,
  "hits":[{"seg":0,"pos":3,"score":1069547520,"flds":[5,null],"grp":2,"resc":null|"rej"|<bits>}, …],
  "plan":[{"f":"score"|<field index>,"desc":true}, …],
  "limit":3,"cand":null,"return_hits":true,"explain":false,"profile":false,"hook":false,"nseg":2,
@@ -139,6 +139,7 @@ def handle (tag : String) (req : Json) : Except String Json := do
       if getBoolD req "spec" false then Spec.search f32Ops r hits
       else if getBoolD req "legacy" false then legacySearch f32Ops r hits
       else if getBoolD req "legacy_scores" false then legacyScoreSearch f32Ops r hits
+      else if getBoolD req "legacy_aggs" false then legacyAggSearch f32Ops r hits
       else search f32Ops r hits
     return respJson resp
   | _ => throw s!"{tag}: unknown op {op}"
